@@ -91,3 +91,49 @@ package extrinsic
 //@     invariant range: i >= 1
 //@     invariant seen: forall(j, 1, i, j < len(f.Faults) ==> !hgt(f.Faults[j-1].Key, f.Faults[j].Key))
 //@     invariant frame: frame_only()
+
+// GP (10.16)-(10.18): each posterior record list extends the prior one — nothing already judged is dropped or reordered
+//@ func UpdatePsiG
+//@   props C35
+//@   requires len: len(priorPsi.Good) < 4294967296 && len(updateVerdicts.Good) < 4294967296
+//@   ensures prefix: len(result) >= len(priorPsi.Good) && len(result) <= len(priorPsi.Good) + len(updateVerdicts.Good) && fresh(result) && forall(i, 0, len(priorPsi.Good), result[i] == priorPsi.Good[i])
+//@   assigns everything
+//@   loop rangeindex#0
+//@     invariant range: rangeindex >= -1 && rangeindex < len(priorPsi.Good) && fresh(goodMap)
+//@     invariant frame: frame_only()
+
+//@ func UpdatePsiB
+//@   props C35
+//@   requires len: len(priorPsi.Bad) < 4294967296 && len(updateVerdicts.Bad) < 4294967296
+//@   ensures prefix: len(result) >= len(priorPsi.Bad) && len(result) <= len(priorPsi.Bad) + len(updateVerdicts.Bad) && fresh(result) && forall(i, 0, len(priorPsi.Bad), result[i] == priorPsi.Bad[i])
+//@   assigns everything
+//@   loop rangeindex#0
+//@     invariant range: rangeindex >= -1 && rangeindex < len(priorPsi.Bad) && fresh(badMap)
+//@     invariant frame: frame_only()
+
+//@ func UpdatePsiW
+//@   props C35
+//@   requires len: len(priorPsi.Wonky) < 4294967296 && len(updateVerdicts.Wonky) < 4294967296
+//@   ensures prefix: len(result) >= len(priorPsi.Wonky) && len(result) <= len(priorPsi.Wonky) + len(updateVerdicts.Wonky) && fresh(result) && forall(i, 0, len(priorPsi.Wonky), result[i] == priorPsi.Wonky[i])
+//@   assigns everything
+//@   loop rangeindex#0
+//@     invariant range: rangeindex >= -1 && rangeindex < len(priorPsi.Wonky) && fresh(wonkyMap)
+//@     invariant frame: frame_only()
+
+// GP (10.20): the offenders marker is the culprits' keys followed by the faults' keys, in extrinsic order
+//@ func (*DisputeController).HeaderOffenders
+//@   props C35
+//@   ghost g int
+//@   requires len: len(newCulprits) < 4294967296 && len(newFaults) < 4294967296
+//@   ensures size: len(result) == len(newCulprits) + len(newFaults) && fresh(result)
+//@   ensures culprits: 0 <= g && g < len(newCulprits) ==> result[g] == newCulprits[g].Key
+//@   ensures faults: 0 <= g && g < len(newFaults) ==> result[len(newCulprits) + g] == newFaults[g].Key
+//@   loop rangeindex#0
+//@     invariant range: rangeindex >= -1 && rangeindex < len(newCulprits) && len(offendersMarkers) == rangeindex + 1 && cap(offendersMarkers) == len(newCulprits) + len(newFaults) && fresh(offendersMarkers)
+//@     invariant culprits: 0 <= g && g <= rangeindex ==> offendersMarkers[g] == newCulprits[g].Key
+//@     invariant frame: frame_only()
+//@   loop rangeindex#1
+//@     invariant range: rangeindex >= -1 && rangeindex < len(newFaults) && len(offendersMarkers) == len(newCulprits) + rangeindex + 1 && cap(offendersMarkers) == len(newCulprits) + len(newFaults) && fresh(offendersMarkers)
+//@     invariant culprits: 0 <= g && g < len(newCulprits) ==> offendersMarkers[g] == newCulprits[g].Key
+//@     invariant faults: 0 <= g && g <= rangeindex ==> offendersMarkers[len(newCulprits) + g] == newFaults[g].Key
+//@     invariant frame: frame_only()
